@@ -4,3 +4,4 @@ pub mod wt;
 pub mod mutate;
 pub mod tok;
 pub mod rewrite;
+pub mod base;
